@@ -20,6 +20,7 @@ mod suite_fmap;
 mod suite_fclone;
 mod suite_fidx;
 mod suite_forest;
+mod suite_fcreation;
 mod suite_fspec;
 mod suite_rt;
 mod suite_repair;
